@@ -96,6 +96,9 @@ pub struct ExpGolomb;
 /// Golomb with modulus 1..=BMAX and value < VMAX
 pub struct Golomb<const BMAX: u64, const VMAX: u64>;
 pub struct MinBin;
+/// Golomb with an arbitrary 64-bit modulus and a value below it (quotient 0): the division-free part of
+/// the definition, so the full modulus range can be explored
+pub struct GolombBig;
 pub struct VByteBe;
 pub struct VByteLe;
 
@@ -340,6 +343,38 @@ macro_rules! impl_codes {
             }
             fn interesting(v: u64, b: u64) -> bool {
                 b == BMAX && v / b > 3
+            }
+        }
+        impl<const T: bool> Code<$e, T> for GolombBig {
+            type P = u64;
+            fn params<S: Src>(s: &mut S) -> (u64, u64) {
+                let b = s.u64_in(1, u64::MAX);
+                let v = s.u64();
+                s.assume(v < b);
+                (v, b)
+            }
+            fn write(ms: &mut MS<$e, T>, v: u64, b: u64) -> usize {
+                ms.write_golomb(v, b).unwrap()
+            }
+            fn read(ms: &mut MS<$e, T>, b: u64) -> u64 {
+                ms.read_golomb(b).unwrap()
+            }
+            fn lib_len_ok(v: u64, b: u64, l: usize) -> bool {
+                len_golomb(v, b) == l
+            }
+            fn spec_len(v: u64, b: u64) -> usize {
+                // quotient 0, remainder v
+                1 + spec::mb_len(v, b as u128)
+            }
+            fn spec_bit(v: u64, b: u64, i: usize) -> bool {
+                if i == 0 {
+                    true
+                } else {
+                    spec::mb_bit::<$e>(v, b as u128, i - 1)
+                }
+            }
+            fn interesting(v: u64, b: u64) -> bool {
+                b > (1u64 << 40) && v > 3
             }
         }
         impl<const T: bool> Code<$e, T> for MinBin {
@@ -658,4 +693,8 @@ crate::harnesses! {
     c03_r_golomb_b4096_be (thorough, "BE stream", "b in 1..=4096, v<2^20 and v<120b") => codec_step::<BE, false, Golomb<4096, 1048575>, _, 1, 0>;
     c03_w_golomb_b4096_le (thorough, "LE stream", "b in 1..=4096, v<2^20 and v<120b") => codec_step::<LE, false, Golomb<4096, 1048575>, _, 0, 7>;
     c03_r_golomb_b4096_le (thorough, "LE stream", "b in 1..=4096, v<2^20 and v<120b") => codec_step::<LE, false, Golomb<4096, 1048575>, _, 1, 0>;
+    c03_w_golombbig_be (quick, "BE stream", "Golomb with any modulus 1<=b<2^64 and v<b (quotient 0); write at symbolic offset 0..=7: bits vs definition, lengths") => codec_step::<BE, false, GolombBig, _, 0, 7>;
+    c03_r_golombbig_be (quick, "BE stream", "Golomb with any modulus 1<=b<2^64 and v<b (quotient 0); write at offset 0 then read: value, consumption, sentinel") => codec_step::<BE, false, GolombBig, _, 1, 0>;
+    c03_w_golombbig_le (quick, "LE stream", "Golomb with any modulus 1<=b<2^64 and v<b (quotient 0); write at symbolic offset 0..=7: bits vs definition, lengths") => codec_step::<LE, false, GolombBig, _, 0, 7>;
+    c03_r_golombbig_le (quick, "LE stream", "Golomb with any modulus 1<=b<2^64 and v<b (quotient 0); write at offset 0 then read: value, consumption, sentinel") => codec_step::<LE, false, GolombBig, _, 1, 0>;
 }
